@@ -187,6 +187,7 @@ def run(ctx):
                                        "(roots %s, parameters %s)" % (name, sorted(rr), sorted(ar)), where_of(c))
     ctx.rule("C10-maxmin-contagion", "max/min return the promoted operand (inexact if any argument is inexact)")
     d_mm = numtables.rule_maxmin(ctx, "C10-operator-table", "C10-maxmin-contagion")
+    numtables.rule_maxmin_grid(ctx, "C10-operator-table")
     ctx.guarded('C10-maxmin-contagion', d_mm >= 8, _old_maxmin)
 
     # lhs()/rhs() return the matching half of the promoted pair
